@@ -211,6 +211,67 @@ func runSyncQ(c *Ctx, prop string) {
 					c.check(ek && em, "C12.syncq", name+" empty result", fn.Pos(), "", fn.Name()+" returns without an item although the buffer was not found empty (items must be handed out even after close)", c.witness(t, len(t.Events)-1)...)
 				}
 			}
+			// the blocking Pop answers "nothing" (its closed answer) only after observing closed == true since it last
+			// held the lock continuously (after the last Wait): an `if` around Wait lets a woken consumer that lost the
+			// race for the item report a closed queue that is open
+			if t.End == EndReturn && fn.Name() == "Pop" {
+				removed := false
+				for _, e := range t.Events {
+					if bufCall(e, "Remove") {
+						removed = true
+					}
+				}
+				// Length() is pure: two readings with no Add/Remove/Wait/lock acquisition between them agree
+				infeasible := false
+				if !removed {
+					facts := t.factsBefore(len(t.Events))
+					sign := func(r *Sym) int { // +1: non-zero, -1: zero, 0: unknown
+						for _, f := range facts {
+							if f.X.Key() != r.Key() {
+								continue
+							}
+							if z, isz := f.Y.intConst(); isz && z == 0 {
+								switch f.Op {
+								case token.EQL, token.LEQ:
+									return -1
+								case token.GTR, token.NEQ:
+									return 1
+								}
+							}
+						}
+						return 0
+					}
+					prev := 0
+					for _, e := range t.Events {
+						if acq, _, ok := lockOp(e); (ok && acq) || condCall(e, "Wait") || bufCall(e, "Add") || bufCall(e, "Remove") {
+							prev = 0
+						}
+						if bufCall(e, "Length") {
+							sg := sign(e.Res)
+							if prev != 0 && sg != 0 && sg != prev {
+								infeasible = true
+							}
+							if sg != 0 {
+								prev = sg
+							}
+						}
+					}
+				}
+				if !removed && !infeasible {
+					ck, cv := false, false
+					for i := len(t.Events) - 1; i >= 0; i-- {
+						if acq, _, ok := lockOp(t.Events[i]); ok && !acq {
+							ck, cv, _, _ = know(t, i)
+							break
+						}
+					}
+					rule := "C12.syncq"
+					if prop == "C13" {
+						rule = "C13.wait-loop"
+					}
+					c.check(ck && cv, rule, name+" closed answer", fn.Pos(), "", "the blocking Pop returns without an item on a path that has not observed closed == true since it last (re)acquired the lock: after a wake-up whose item another consumer took, it reports `closed` for an open queue instead of waiting again (wait loop written as `if`)", c.witness(t, len(t.Events)-1)...)
+				}
+			}
 		}
 	}
 	if prop == "C12" {
